@@ -74,6 +74,16 @@ def seeded():
     head = ['| seed | change | verdict | caught by | failing obligation(s) |', '|---|---|---|---|---|']
     return '\n'.join(head + rows)
 
+def fixes():
+    import subprocess
+    out = subprocess.run(['git', '-C', '/repo', 'log', '--reverse', '--format=%h\t%s'], capture_output=True, text=True).stdout
+    rows = ['| commit | repair |', '|---|---|']
+    for l in out.splitlines():
+        h, _, subj = l.partition('\t')
+        if subj.startswith('fix:'):
+            rows.append('| %s | %s |' % (h, subj[4:].strip().replace('|', '/')))
+    return '%d `fix:` commits:\n\n' % (len(rows) - 2) + '\n'.join(rows)
+
 def refactors():
     f = V + '/refactors/RESULTS.txt'
     if not os.path.exists(f):
@@ -83,7 +93,7 @@ def refactors():
 def main():
     p = V + '/DESIGN.md'
     s = open(p).read()
-    for name, fn in (('unclaimed', unclaimed), ('findings', findings), ('seeded', seeded), ('refactors', refactors)):
+    for name, fn in (('unclaimed', unclaimed), ('findings', findings), ('seeded', seeded), ('refactors', refactors), ('fixes', fixes)):
         b, e = '<!-- BEGIN:%s -->' % name, '<!-- END:%s -->' % name
         if b in s and e in s:
             i, j = s.index(b) + len(b), s.index(e)
